@@ -46,6 +46,7 @@ var (
 	basePort = flag.Int("base_port", 23000, "first port")
 	outPath  = flag.String("out", "", "JSON lines output")
 	modFlag  = flag.Bool("mod", false, "inject a message of death (PANIC command) in every round (property C07)")
+	sgFlag   = flag.Bool("safeguard", false, "restart a node against peers with skewed clocks (property C19): it must refuse before raft talks to anybody")
 )
 
 // ---------------------------------------------------------------- reporting
@@ -506,6 +507,12 @@ func main() {
 		rep.inconclusive("the three-node network did not become healthy within 60s: " + tailFile(filepath.Join(c.nodes[1].dir, "stderr.txt")))
 		return
 	}
+	if *sgFlag {
+		for r := 0; r < *rounds; r++ {
+			c.safeguard(*seedFlag*1009+int64(r), pool)
+		}
+		return
+	}
 	// configuration without throttling
 	cfg := "SessionExpiration = \"30m0s\"\nPostMessageCooloff = \"0\"\n[IRC]\n  [[IRC.Operators]]\n    Name = \"op\"\n    Password = \"oppass\"\n"
 	okCfg := false
@@ -530,6 +537,153 @@ func main() {
 	for _, n := range c.nodes {
 		m, _ := filepath.Glob(filepath.Join(n.dir, "race*"))
 		rep.Obs("race-log-files", len(m))
+	}
+}
+
+// ---------------------------------------------------------------- C19: the start-up check on the real binary
+
+// fakePeer answers the status request of the time safeguard like a node whose clock is off
+// by |offset| (after |delay|; never, if hang is set) and counts everything that looks like
+// raft traffic (the node under test must not talk raft to anybody before the check passed).
+type fakePeer struct {
+	mu        sync.Mutex
+	offset    time.Duration
+	delay     time.Duration
+	hang      bool
+	raftCalls []string
+	status    int
+	srv       *http.Server
+}
+
+func (f *fakePeer) set(offset, delay time.Duration, hang bool) {
+	f.mu.Lock()
+	defer f.mu.Unlock()
+	f.offset, f.delay, f.hang = offset, delay, hang
+	f.raftCalls, f.status = nil, 0
+}
+
+func (f *fakePeer) ServeHTTP(w http.ResponseWriter, r *http.Request) {
+	f.mu.Lock()
+	offset, delay, hang := f.offset, f.delay, f.hang
+	if strings.HasPrefix(r.URL.Path, "/raft/") {
+		f.raftCalls = append(f.raftCalls, r.URL.Path)
+		f.mu.Unlock()
+		http.Error(w, "not a raft node", http.StatusServiceUnavailable)
+		return
+	}
+	f.status++
+	f.mu.Unlock()
+	if hang {
+		select {
+		case <-r.Context().Done():
+		case <-time.After(20 * time.Second):
+		}
+		return
+	}
+	time.Sleep(delay)
+	w.Header().Set("Content-Type", "application/json")
+	json.NewEncoder(w).Encode(map[string]interface{}{"State": "Follower", "Leader": "", "Peers": []string{}, "CurrentTime": time.Now().Add(offset)})
+}
+
+func (f *fakePeer) observed() (raftCalls []string, statusRequests int) {
+	f.mu.Lock()
+	defer f.mu.Unlock()
+	return append([]string(nil), f.raftCalls...), f.status
+}
+
+func (c *cluster) safeguard(seed int64, pool *x509.CertPool) {
+	rep := c.rep
+	rng := mrand.New(mrand.NewSource(seed))
+	viol := func(key, what string, w map[string]interface{}) {
+		if w == nil {
+			w = map[string]interface{}{}
+		}
+		w["seed"] = seed
+		rep.violation("C19", key, what, w)
+	}
+	// the real network has done its job: node 2 holds raft state that names three servers
+	for _, n := range c.nodes {
+		n.signal(syscall.SIGKILL)
+	}
+	time.Sleep(500 * time.Millisecond)
+	tlsCert, err := tls.LoadX509KeyPair(c.cert, c.key)
+	if err != nil {
+		rep.broken(err.Error())
+		return
+	}
+	peers := []*fakePeer{{}, {}}
+	for i, f := range peers {
+		ln, err := tls.Listen("tcp", c.nodes[i].addr(), &tls.Config{Certificates: []tls.Certificate{tlsCert}})
+		if err != nil {
+			rep.inconclusive("cannot listen on the port of a stopped node: " + err.Error())
+			return
+		}
+		f.srv = &http.Server{Handler: f}
+		go f.srv.Serve(ln)
+		defer f.srv.Close()
+	}
+	target := c.nodes[2]
+	type sub struct {
+		name        string
+		offA        time.Duration
+		delayB      time.Duration
+		hangB       bool
+		mustRefuse  bool
+		observeSecs int
+	}
+	skews := []time.Duration{time.Hour, -time.Hour, 3 * time.Second, -5 * time.Second, 24 * time.Hour}
+	subs := []sub{
+		{"skewed-peer+fast-peer", skews[rng.Intn(len(skews))], 0, false, true, 20},
+		{"skewed-peer+slow-peer", skews[rng.Intn(len(skews))], time.Duration(3500+rng.Intn(1000)) * time.Millisecond, false, true, 25},
+		{"skewed-peer+silent-peer", skews[rng.Intn(len(skews))], 0, true, true, 25},
+		{"control:peers-in-sync", 0, 0, false, false, 8},
+	}
+	for _, sc := range subs {
+		peers[0].set(sc.offA, 0, false)
+		peers[1].set(0, sc.delayB, sc.hangB)
+		if err := c.startNode(target, ""); err != nil {
+			rep.broken(err.Error())
+			return
+		}
+		t0 := time.Now()
+		exited := false
+		for time.Since(t0) < time.Duration(sc.observeSecs)*time.Second {
+			if !target.alive() {
+				exited = true
+				break
+			}
+			time.Sleep(50 * time.Millisecond)
+		}
+		lived := time.Since(t0)
+		target.signal(syscall.SIGKILL)
+		time.Sleep(300 * time.Millisecond)
+		rpcA, stA := peers[0].observed()
+		rpcB, stB := peers[1].observed()
+		rpcs := append(rpcA, rpcB...)
+		w := map[string]interface{}{"case": sc.name, "offset_of_peer_a": sc.offA.String(), "delay_of_peer_b": sc.delayB.String(), "peer_b_silent": sc.hangB, "lived": lived.String(), "raft_requests": rpcs, "log_tail": tailFile(filepath.Join(target.dir, "stderr.txt"))}
+		if stA == 0 {
+			rep.inconclusive(fmt.Sprintf("case %s: the restarted node never asked the skewed peer for its time (%s)", sc.name, tailFile(filepath.Join(target.dir, "stderr.txt"))))
+			continue
+		}
+		if sc.mustRefuse {
+			if !exited {
+				viol("binary:joined-with-skewed-peer", fmt.Sprintf("the restarted node was still running %v after start although an answering peer's clock is off by %v", lived.Round(time.Second), sc.offA), w)
+			}
+			if len(rpcs) > 0 {
+				viol("binary:raft-before-time-check", fmt.Sprintf("the restarted node sent %d raft requests (%s ...) to its peers although the time check had not passed (peer clock off by %v; the check was still waiting for the other peer)", len(rpcs), rpcs[0], sc.offA), w)
+			}
+		} else {
+			// positive control: with peers in sync the node stays up and raft traffic is seen
+			if exited {
+				rep.inconclusive(fmt.Sprintf("control case: the node exited although all peers are in sync: %s", tailFile(filepath.Join(target.dir, "stderr.txt"))))
+			} else if len(rpcs) == 0 {
+				rep.broken("control case: no raft request reached the fake peers within the observation time; the counter would not see raft traffic")
+			}
+		}
+		rep.Case(fmt.Sprintf("safeguard|%s|exited=%v|raft=%v", sc.name, exited, len(rpcs) > 0), 1)
+		rep.Obs("safeguard.cases", 1)
+		rep.Obs("safeguard.status-requests-seen", stA+stB)
+		rep.Obs("safeguard.raft-requests-seen."+sc.name, len(rpcs))
 	}
 }
 
